@@ -1473,8 +1473,9 @@ class EAStoryDelete(ElementAction):
         A list of :class:`~mosromgr.moselements.Story` objects to be deleted
         """
         return [
-            Story(story_tag)
-            for story_tag in self.base_tag.findall('element_source')
+            Story(source, id=story_id.text)
+            for source in self.base_tag.findall('element_source')
+            for story_id in source.findall('storyID')
         ]
 
     def merge(self, ro: RunningOrder) -> RunningOrder:
@@ -1533,8 +1534,9 @@ class EAItemDelete(ElementAction):
         A list of :class:`~mosromgr.moselements.Item` objects being deleted
         """
         return [
-            Item(item_tag)
-            for item_tag in self.base_tag.findall('element_source')
+            Item(source, id=item_id.text)
+            for source in self.base_tag.findall('element_source')
+            for item_id in source.findall('itemID')
         ]
 
     def merge(self, ro: RunningOrder) -> RunningOrder:
